@@ -119,6 +119,8 @@ def run(scn):
         key = '%s|%s|%s' % (clause, facts.get('opkind', ''), facts.get('what', ''))
         viol.append({'clause': clause, 'key': key, 'facts': facts, 'message': msg})
     hist = {'ops': scn['ops']}
+    if scn.get('table_cache'):
+        hist['table_cache'] = True
     if scn.get('listing_seed') is not None:
         hist['listing_seed'] = scn['listing_seed']
     recs = hs.run_history(hist)
@@ -285,6 +287,15 @@ def sweep(tier):
             if tier == 'thorough':
                 ops.append({'op': 'repeat', 'of': 0})
             out.append({'ops': ops, 'child_hash_seeds': [], 'pair': True})
+    # diagnostic logging on: failing texts without any line feed, followed by texts whose outcome shows a stale line counter or lexer state
+    for bad in ('cr-only-error', 'one-line-comment', 'eof-comment', 'lex-macro'):
+        for b in probing[:7]:
+            out.append({'ops': [{'op': 'parse', 'dialect': 'smiV1Relaxed', 'bad': bad}, _c.deepcopy(b)], 'child_hash_seeds': [], 'pair': True, 'debug': True})
+    # one grammar-table cache directory shared by parsers of different dialects (strict first, relaxed afterwards and the other way round)
+    for d1, d2 in (('smiV2', 'smiV1Relaxed'), ('smiV2', 'smiV1'), ('smiV1Relaxed', 'smiV2')):
+        for k in (0, 1, 2, 3):
+            out.append({'ops': [{'op': 'parse', 'dialect': d1, 'file': k}, {'op': 'parse', 'dialect': d2, 'file': k}, {'op': 'parse', 'dialect': d2, 'file': 3}],
+                        'child_hash_seeds': [], 'pair': True, 'table_cache': True})
     # joint call vs each module on its own: a module that refines an enumerated type, users of that type in other modules
     for req in (['BBB-MIB', 'AAA-MIB'], ['AAA-MIB', 'BBB-MIB'], ['CCC-MIB', 'BBB-MIB', 'AAA-MIB']):
         specs = {'AAA-MIB': _fixed_spec('AAA-MIB', enumtc=True), 'BBB-MIB': _fixed_spec('BBB-MIB', arc=10, imports=['AAA-MIB'], enumuse='AAA-MIB'),
@@ -345,10 +356,14 @@ def generate(rng, tier):
         for o in ops:
             if o['op'] == 'parse':
                 o['dialect'] = d
-    return {'ops': ops, 'child_hash_seeds': sorted(rng.sample(PALETTE, 2)), 'child_fresh': rng.random() < 0.3}
+    return {'ops': ops, 'child_hash_seeds': sorted(rng.sample(PALETTE, 2)), 'child_fresh': rng.random() < 0.3, 'table_cache': rng.random() < 0.3}
 
 
 def shrink(scn):
+    if scn.get('table_cache'):
+        s = copy.deepcopy(scn)
+        s.pop('table_cache')
+        yield s
     if len(scn.get('child_hash_seeds', [])) > 1:
         for s0 in scn['child_hash_seeds']:
             s = copy.deepcopy(scn)
